@@ -617,6 +617,7 @@ func collectFacts(t *dtygen.Ty, f *tyFacts, open map[string]bool) {
 					f.quotedNumeric = true
 				case dtygen.KNamed:
 					f.quotedNumeric = true
+					f.quotedBool = true
 				}
 			}
 		}
